@@ -1368,7 +1368,7 @@ async fn run_op(
                 exclude_list: exclude.as_ref().map(|l| descriptors(l, &op.unknown_type, &op.list_transports)),
                 extensions,
                 options: ctap2::make_credential::Options { rk: s.rk, up: s.up, uv: s.uv },
-                pin_auth: s.pin_auth.then(|| vec![1u8; 16].into()),
+                pin_auth: s.pin_auth.then(|| if s.pin_empty { Vec::new() } else { vec![1u8; 16] }.into()),
                 pin_protocol: s.pin_auth.then_some(1),
             };
             let auth: &mut SimAuth = client.authenticator_mut();
@@ -1411,7 +1411,7 @@ async fn run_op(
                 allow_list: allow.as_ref().map(|l| descriptors(l, &op.unknown_type, &op.list_transports)),
                 extensions,
                 options: ctap2::get_assertion::Options { rk: s.rk, up: s.up, uv: s.uv },
-                pin_auth: s.pin_auth.then(|| vec![1u8; 16].into()),
+                pin_auth: s.pin_auth.then(|| if s.pin_empty { Vec::new() } else { vec![1u8; 16] }.into()),
                 pin_protocol: s.pin_auth.then_some(1),
             };
             let auth: &mut SimAuth = client.authenticator_mut();
@@ -1734,9 +1734,19 @@ pub fn run_ceremony(c: &Ceremony) -> RunRecord {
                 verification: actor.verification,
                 actor: t,
             };
-            let mut auth = Authenticator::new(Aaguid::from([0xA5; 16]), store, user);
+            let aaguid = match actor.aaguid {
+                0 => [0xA5; 16],
+                1 => [0; 16],
+                n => [n; 16],
+            };
+            let mut auth = Authenticator::new(Aaguid::from(aaguid), store, user);
             auth.set_make_credentials_with_signature_counter(actor.counter);
             auth.set_make_credential_id_length(CredentialIdLength::from(actor.id_len));
+            let auth = match actor.transports {
+                0 => auth,
+                6 => auth.transports(vec![webauthn::AuthenticatorTransport::Usb, webauthn::AuthenticatorTransport::Internal, webauthn::AuthenticatorTransport::Usb]),
+                n => auth.transports(transports_of(n).unwrap_or_default()),
+            };
             let auth = match actor.hmac {
                 HmacCfg::None => auth,
                 HmacCfg::UvOnly => {
